@@ -91,6 +91,10 @@ def symmetric_cage(mol):
     from collections import Counter
     for atoms, cnt in blocks:
         if cnt >= 3:
+            # cage-like means a saturated polycycle (prismane, cubane, ladderanes): planar aromatic systems with the same
+            # symmetry (triphenylene, coronene) print one string on the unchanged tree and are not part of the gap
+            if any(b.order != 1 for n in atoms for k, b in mol._bonds[n].items() if k in atoms):
+                continue
             c = Counter(col[n] for n in atoms)
             if all(v >= 2 for v in c.values()):
                 return True
@@ -101,7 +105,8 @@ def symmetric_bridged_polycycle(mol):
     """recorded finding of C01 (not one of the two documented gaps): a bridged ring system (two smallest rings share three or more
     atoms) with three or more rings in which at least two classes of ring atoms have two or more members. The walk breaks the first
     tie between equivalent atoms arbitrarily and then keeps using the classes of the whole molecule, although the first choice has
-    made the remaining pairs inequivalent: C1C2C3CC1C1C(CCCC1C3)C2 has two canonical strings"""
+    made the remaining pairs inequivalent: C1C2C3CC1C1C(CCCC1C3)C2 has two canonical strings. The same happens in peri-condensed
+    aromatic systems (an atom common to three rings): coronene has two canonical strings"""
     sssr = [set(r) for r in mol.sssr]
     if len(sssr) < 3:
         return False
@@ -118,7 +123,12 @@ def symmetric_bridged_polycycle(mol):
             rings += b[1]
         blocks.append((atoms, rings))
     for atoms, rings in blocks:
-        if len(rings) >= 3 and any(len(a & b) >= 3 for i, a in enumerate(rings) for b in rings[i + 1:]):
+        if len(rings) < 3:
+            continue
+        bridged = any(len(a & b) >= 3 for i, a in enumerate(rings) for b in rings[i + 1:])
+        # peri-condensed: an atom common to three rings (coronene, pyrene); cata-condensed systems (anthracene, triphenylene) are not covered
+        peri = len(rings) >= 4 and any(sum(n in r for r in rings) >= 3 for n in atoms)
+        if bridged or peri:
             c = Counter(col[n] for n in atoms)
             if sum(1 for v in c.values() if v >= 2) >= 2:
                 return True
